@@ -175,33 +175,188 @@ def _effective_ctrl(m, ctrl):
     return eff
 
 
-def classify_unchecked(L, m, pre):
-    """pre: twin holding the pre-step state. Names the mechanism that let a non-finite value through."""
+RK4_A = [[0.5], [0.0, 0.5], [0.0, 0.0, 1.0]]          # classical RK4 tableau (engine_forward.c mj_RungeKutta, N = 4)
+
+
+def _rk4_substage_evidence(L, m, pre):
+    """positive evidence that the blow-up happens in the RK4 sub-stages 2-4, which mj_step does not check: starting from the
+    forwarded pre-step twin (stage 1, known to pass mj_checkAcc) the stage states X_i = X_0 + h sum_j A_ij F_j are rebuilt with
+    mj_integratePos and mj_forward, and the first stage whose state or acceleration is bad (NaN or |x| > mjMAXVAL) is reported.
+    None if all four stages are fine (then a non-finite result is NOT explained by this mechanism)."""
+    h = float(m.opt["timestep"])
+    nv, na = m.n("nv"), m.n("na")
+    q0, v0, t0 = pre["qpos"].copy(), pre["qvel"].copy(), pre.s("time")
+    a0 = pre["act"].copy() if na else None
+    F = [(v0.copy(), pre["qacc"].copy(), pre["act_dot"].copy() if na else None)]
+    X = pre.copy()
+    try:
+        for i in range(3):
+            row = RK4_A[i]
+            dq = sum(row[j] * F[j][0] for j in range(len(row)))
+            dv = sum(row[j] * F[j][1] for j in range(len(row)))
+            with np.errstate(all="ignore"):
+                q = np.ascontiguousarray(q0.copy())
+                L.call("mj_integratePos", m, q, np.ascontiguousarray(dq), h, ret=None)
+                v = v0 + h * dv
+            if refbad(q).any() or refbad(v).any():
+                return {"stage": i + 2, "what": "stage state", "max_abs_qvel": float(np.nanmax(np.abs(v))) if nv else 0.0}
+            X["qpos"][:] = q
+            X["qvel"][:] = v
+            if na:
+                with np.errstate(all="ignore"):
+                    X["act"][:] = a0 + h * sum(row[j] * F[j][2] for j in range(len(row)))
+            X.set_s("time", t0 + h * sum(row))
+            try:
+                X.forward()
+            except drv.MjError as e:
+                return {"stage": i + 2, "what": "engine error in stage forward: " + str(e)[:80]}
+            if refbad(X["qacc"]).any():
+                return {"stage": i + 2, "what": "stage qacc", "max_abs_qacc": float(np.nanmax(np.abs(X["qacc"])))}
+            F.append((X["qvel"].copy(), X["qacc"].copy(), X["act_dot"].copy() if na else None))
+        return None
+    finally:
+        X.free()
+
+
+def _euler_twin_finite(L, m, pre_state):
+    """one step of an Euler twin from the same pre-step state leaves a finite state (the blow-up is specific to the integrator)"""
     integ = int(m.opt["integrator"])
+    Tw = pre_state.copy()
+    try:
+        m.opt["integrator"] = E.mjINT_EULER
+        Tw.step(1)
+        return not _finite_state(Tw)
+    except drv.MjError:
+        return False
+    finally:
+        m.opt["integrator"] = integ
+        Tw.free()
+
+
+def _qderiv_family_nonfinite(L, m, T):
+    """which derivative family puts non-finite entries into qDeriv (each mjd_* accumulates into a cleared qDeriv)"""
+    out = {}
+    for fam in ("mjd_actuator_vel", "mjd_passive_vel"):
+        T["qDeriv"][:] = 0
+        L.call(fam, m, T, ret=None)
+        out[fam] = not bool(np.isfinite(T["qDeriv"]).all())
+    return out
+
+
+def _undamped_tendon_nan_derivative(L, m, pre0, fwd, restore):
+    """confirmation of the described mechanism of findings/C30-implicit-nonfinite-qDeriv-unchecked.md on the failing case:
+    (1) the passive-force derivative alone (mjd_passive_vel) is non-finite while the actuator derivative is finite, and the passive
+    FORCE itself is finite (the force code skipped the term, the derivative code did not); (2) a tendon with zero damping (linear and
+    polynomial) has a non-finite velocity; (3) counterfactual: with the injected element(s) put back to their pre-injection values the
+    same state has a finite qDeriv, i.e. the NaN stems from the injected non-finite input, not from the derivative code at a finite
+    state (that would be a C25-class defect and keeps the generic signature); (4) an Euler twin stays finite."""
+    ev = {}
+    fam = _qderiv_family_nonfinite(L, m, fwd)
+    ev["family_nonfinite"] = fam
+    if not fam["mjd_passive_vel"] or fam["mjd_actuator_vel"]:
+        return False, ev
+    if not np.isfinite(fwd["qfrc_passive"]).all():
+        ev["qfrc_passive_finite"] = False
+        return False, ev
+    nt = m.n("ntendon")
+    tv = fwd["ten_velocity"]
+    damp = m["tendon_damping"].reshape(-1)
+    poly = m["tendon_dampingpoly"].reshape(nt, -1) if nt and "tendon_dampingpoly" in m else np.zeros((nt, 1))
+    cand = [t for t in range(nt) if not np.isfinite(tv[t]) and damp[t] == 0 and not poly[t].any()]
+    ev["undamped_tendons_with_nonfinite_velocity"] = cand
+    if not cand:
+        return False, ev
+    if not restore:
+        ev["counterfactual"] = "no injected element to restore"
+        return False, ev
+    C0 = pre0.copy()
+    try:
+        for target, idx, orig in restore:
+            _flat(C0, target)[idx] = orig
+        C0.forward()
+        ev["qDeriv_finite_with_injection_undone"] = bool(np.isfinite(_qderiv(L, m, C0)).all())
+    except drv.MjError:
+        ev["qDeriv_finite_with_injection_undone"] = False
+    finally:
+        C0.free()
+    if not ev["qDeriv_finite_with_injection_undone"]:
+        return False, ev
+    ev["euler_twin_finite"] = _euler_twin_finite(L, m, pre0)
+    return bool(ev["euler_twin_finite"]), ev
+
+
+def classify_unchecked(L, m, pre, restore=None):
+    """pre: twin holding the pre-step state; restore: [(target, index, value before injection)]. Names the mechanism that let a
+    non-finite value through: returns (mechanism, confirmed, evidence). Only a CONFIRMED mechanism may be used as (part of) a
+    signature that is listed in known_findings.json; an unconfirmed guess is reported under the generic
+    'autoreset-on:nonfinite-...-after-step' signature (audit B2)."""
+    integ = int(m.opt["integrator"])
+    pre0 = pre
     pre = pre.copy()
     try:
         pre.forward()
         if refbad(pre["qacc"]).any():
-            return "mj_checkAcc-missed-bad-qacc"
+            return "mj_checkAcc-missed-bad-qacc", False, {}
         if integ == E.mjINT_RK4:
-            return "integrator-result-unchecked:RK4-substages"
+            ev = _rk4_substage_evidence(L, m, pre)
+            if ev is None:
+                return "RK4:all-four-stages-fine", False, {}
+            ev["euler_twin_finite"] = _euler_twin_finite(L, m, pre0)
+            return "integrator-result-unchecked:RK4-substages", bool(ev["euler_twin_finite"]), ev
         if integ in (E.mjINT_IMPLICIT, E.mjINT_IMPLICITFAST):
+            if m.n("nu"):
+                raw = pre["ctrl"].copy()
+                eff = _effective_ctrl(m, raw)
+                if raw.tobytes() != eff.tobytes():
+                    # raw-ctrl mechanism (findings/C30-implicit-qDeriv-uses-raw-ctrl.md), three-part confirmation: (1) qDeriv on this
+                    # state changes when d->ctrl is replaced by the controls the actuation stage really used (clamped; zero if any is
+                    # bad); (2) counterfactual: the same step with d->ctrl replaced by those controls - identical forces, only qDeriv
+                    # differs - leaves a finite state; (3) the raw-ctrl step is finite under Euler (a leak of the raw ctrl anywhere
+                    # else in the pipeline would show there too). Covers a non-finite qDeriv (ctrl = NaN/Inf) and a finite but huge
+                    # one (ctrl = 1e300 clamped to 1: M - h*qDeriv overflows in the solve).
+                    ev = {"qDeriv_finite_with_raw_ctrl": bool(np.isfinite(_qderiv(L, m, pre)).all())}
+                    pre["ctrl"][:] = eff
+                    D_eff = _qderiv(L, m, pre)
+                    pre["ctrl"][:] = raw
+                    ev["qDeriv_changes_with_effective_ctrl"] = bool(D_eff.tobytes() != _qderiv(L, m, pre).tobytes())
+                    Tw = pre0.copy()
+                    try:
+                        Tw["ctrl"][:] = eff
+                        Tw.step(1)
+                        ev["state_finite_with_effective_ctrl"] = not _finite_state(Tw)
+                    except drv.MjError:
+                        ev["state_finite_with_effective_ctrl"] = False
+                    finally:
+                        Tw.free()
+                    if ev["qDeriv_changes_with_effective_ctrl"] and ev["state_finite_with_effective_ctrl"]:
+                        ev["euler_twin_finite"] = _euler_twin_finite(L, m, pre0)
+                        if ev["euler_twin_finite"]:
+                            return "implicit:qDeriv-uses-raw-ctrl:nonfinite-state-after-step", True, ev
             D = _qderiv(L, m, pre)
             if not np.isfinite(D).all():
-                if m.n("nu"):
-                    raw = pre["ctrl"].copy()
-                    eff = _effective_ctrl(m, raw)
-                    if raw.tobytes() != eff.tobytes():
-                        pre["ctrl"][:] = eff
-                        if np.isfinite(_qderiv(L, m, pre)).all():
-                            return "implicit:qDeriv-uses-raw-ctrl:nonfinite-state-after-step"
-                return "integrator-result-unchecked:implicit:nonfinite-qDeriv"
-            return "integrator-result-unchecked:implicit:nonfinite-solve"
-        return "Euler"
+                ok, ev = _undamped_tendon_nan_derivative(L, m, pre0, pre, restore)
+                return "integrator-result-unchecked:implicit:nonfinite-qDeriv", ok, ev
+            return "implicit:nonfinite-solve", False, {}
+        return "Euler", False, {}
     except drv.MjError:
-        return "unclassified(engine-error-in-diagnosis)"
+        return "unclassified(engine-error-in-diagnosis)", False, {}
     finally:
         pre.free()
+
+
+def report_unchecked(P, L, m, PRE, bad, provenance, wit, restore=None, prefix="autoreset-on", integrator_mechanisms_only=False):
+    """one violation for a non-finite state after mj_step, keyed by the confirmed mechanism or generically"""
+    mech, confirmed, ev = classify_unchecked(L, m, PRE, restore)
+    if integrator_mechanisms_only and (mech == "Euler" or mech.startswith(("mj_checkAcc", "unclassified"))):
+        # degenerate generated model whose reset state itself is not steppable (see ASSUMPTIONS): skipped and counted by the caller
+        return
+    wit = dict(wit, nonfinite=bad, mechanism=mech, mechanism_confirmed=confirmed, mechanism_evidence=ev)
+    if confirmed:
+        P.count("unchecked_result_confirmed:%s:%s" % (mech, provenance))
+        P.violation("%s:%s" % (mech, provenance), wit)
+    else:
+        P.count("unchecked_result_unconfirmed:%s:%s" % (mech, provenance))
+        P.violation("%s:nonfinite-%s-after-step:%s:%s" % (prefix, bad[0], mech, provenance), wit)
 
 
 def raw_ctrl_in_qderiv(L, m, pre):
@@ -220,6 +375,31 @@ def raw_ctrl_in_qderiv(L, m, pre):
         return False
     finally:
         pre.free()
+
+
+def badctrl_difference_is_raw_ctrl_in_qderiv(L, m, pre):
+    """mechanism confirmation for 'implicit:qDeriv-uses-raw-ctrl:badctrl-step-differs-from-zero-control-twin' (audit B2: a model-level
+    predicate alone would relabel any other leak of a bad raw ctrl into the step, e.g. through act_dot): (1) qDeriv depends on the raw
+    ctrl on this state, and (2) counterfactual: on the SAME case the raw-ctrl step and the zero-control twin agree bit for bit under the
+    Euler integrator (which shares the whole pipeline except the use of qDeriv), so the difference is specific to the implicit
+    integrators' derivative."""
+    if not raw_ctrl_in_qderiv(L, m, pre):
+        return False, {"raw_ctrl_in_qDeriv": False}
+    integ = int(m.opt["integrator"])
+    A, B = pre.copy(), pre.copy()
+    try:
+        m.opt["integrator"] = E.mjINT_EULER
+        B["ctrl"][:] = 0
+        A.step(1)
+        B.step(1)
+        same = _state_diff(L, m, A.get_state(E.mjSTATE_PHYSICS), B.get_state(E.mjSTATE_PHYSICS), E.mjSTATE_PHYSICS) is None
+        return same, {"raw_ctrl_in_qDeriv": True, "euler_raw_vs_zero_control_twin_identical": same}
+    except drv.MjError as e:
+        return False, {"raw_ctrl_in_qDeriv": True, "euler_counterfactual_error": str(e)[:80]}
+    finally:
+        m.opt["integrator"] = integ
+        A.free()
+        B.free()
 
 
 def _gen(c):
@@ -250,9 +430,10 @@ def _warm(L, m, d, rng, nstep):
         w = d.sv("warning")["number"]
         mech = None
         if bad:
-            mech = classify_unchecked(L, m, pre)
+            mech = ("nonfinite", pre, bad)                 # caller reports and frees pre
+            return mech
         elif any(int(w[getattr(E, k)]) for k in BADW):
-            mech = "reset-state-raises-bad-value-warning"
+            mech = ("reset-state-raises-bad-value-warning", None, None)
         pre.free()
         return mech
     return None
@@ -291,8 +472,13 @@ def inject_once(L, m, rng, P, c, k):
             mech = _warm(L, m, d, np.random.default_rng(wseed), nstep)
             if mech is not None:
                 # the model cannot even take one step from its reset state
-                if mech.startswith(("integrator-result-unchecked", "implicit:")):
-                    P.violation("%s:from-reset-state" % mech, dict(wit, note="mj_resetData + mj_step leaves a non-finite state"))
+                if mech[0] == "nonfinite":
+                    try:
+                        report_unchecked(P, L, m, mech[1], mech[2], "from-reset-state",
+                                         dict(wit, note="mj_resetData + mj_step leaves a non-finite state"), prefix="reset-state",
+                                         integrator_mechanisms_only=True)
+                    finally:
+                        mech[1].free()
                 P.count("skipped_model_diverges_from_reset_state")
                 P.case(nontrivial=False)
                 return
@@ -303,10 +489,12 @@ def inject_once(L, m, rng, P, c, k):
             return
         if not autoreset:
             m.opt["disableflags"] = dis0 | E.mjDSBL_AUTORESET
+        restore = [(target, idx, float(_flat(d, target)[idx]))]
         _flat(d, target)[idx] = val
         if second:
             idx2 = classes[pick2 % len(classes)][1]
             if idx2 != idx:
+                restore.append((target, idx2, float(_flat(d, target)[idx2])))
                 _flat(d, target)[idx2] = VALUES[vname2]
                 wit["second"] = {"index": idx2, "value": vname2}
         before = _counts(d)
@@ -371,11 +559,7 @@ def inject_once(L, m, rng, P, c, k):
         if autoreset:
             bad = [] if (target == "act" and triggered is None) else _finite_state(d)
             if bad:
-                mech = classify_unchecked(L, m, PRE)
-                if mech == "Euler" or mech.startswith("mj_checkAcc") or mech.startswith("unclassified"):
-                    viol("autoreset-on:nonfinite-%s-after-step:%s:injected-%s" % (bad[0], mech, target), nonfinite=bad)
-                else:
-                    viol("%s:injected-%s" % (mech, target), nonfinite=bad)
+                report_unchecked(P, L, m, PRE, bad, "injected-%s" % target, wit, restore)
             names = {"pos": "mjWARN_BADQPOS", "vel": "mjWARN_BADQVEL", "acc": "mjWARN_BADQACC"}
             if triggered:
                 wn = names[triggered]
@@ -401,10 +585,13 @@ def inject_once(L, m, rng, P, c, k):
                         viol("badctrl:counter-not-raised")
                     if Z is not None:
                         fd = _state_diff(L, m, d.get_state(E.mjSTATE_PHYSICS), Z.get_state(E.mjSTATE_PHYSICS), E.mjSTATE_PHYSICS)
-                        if fd and raw_ctrl_in_qderiv(L, m, PRE):
-                            viol("implicit:qDeriv-uses-raw-ctrl:badctrl-step-differs-from-zero-control-twin", diff=fd)
-                        elif fd:
-                            viol("badctrl:state-differs-from-zero-control-twin:%s" % fd["component"], diff=fd)
+                        if fd:
+                            ok, ev = badctrl_difference_is_raw_ctrl_in_qderiv(L, m, PRE)
+                            if ok:
+                                P.count("badctrl_difference_confirmed_as_raw_ctrl_in_qDeriv")
+                                viol("implicit:qDeriv-uses-raw-ctrl:badctrl-step-differs-from-zero-control-twin", diff=fd, mechanism_evidence=ev)
+                            else:
+                                viol("badctrl:state-differs-from-zero-control-twin:%s" % fd["component"], diff=fd, mechanism_evidence=ev)
                         P.count("badctrl_path_checked")
                 elif after["mjWARN_BADCTRL"] != before["mjWARN_BADCTRL"]:
                     viol("badctrl:spurious-warning:injected-%s" % target)
@@ -460,12 +647,10 @@ def organic(L, m, rng, P, c):
             if autoreset:
                 bad = _finite_state(d)
                 if bad:
-                    mech = classify_unchecked(L, m, PRE)
-                    PRE.free()
-                    if mech == "Euler" or mech.startswith("mj_checkAcc") or mech.startswith("unclassified"):
-                        P.violation("organic:autoreset-on:nonfinite-%s-after-step:%s" % (bad[0], mech), w)
-                    else:
-                        P.violation("%s:organic" % mech, w)
+                    try:
+                        report_unchecked(P, L, m, PRE, bad, "organic", w, prefix="organic:autoreset-on")
+                    finally:
+                        PRE.free()
                     break
                 was_reset = (s > 0 and t0 > 0 and d.s("time") == dt) or (pos_bad or vel_bad)
                 if pos_bad and after["mjWARN_BADQPOS"] < 1:
@@ -577,6 +762,16 @@ def _collect(ctx, cs, res):
     for c, r in zip(cs, res):
         if r is None:
             ctx.inconclusive("worker returned nothing")
+        elif "crash" in r and c.get("flavour") == "asan" and _asan_site(r["crash"], "asan") == ("ubsan-float-cast-overflow", "mju_round"):
+            # mju_round(NaN) casts NaN to int (engine_util_misc.c; findings/C30-mju_round-nan-cast.md). Real but inconsequential UB and no
+            # clause of the C30 statement covers it (audit B2, lead decision): counted, NOT part of the verdict. The UBSan abort loses the
+            # rest of this slice (at most five injections), which is counted as well.
+            ctx.count("ubsan_float_cast_in_mju_round_outside_verdict")
+            ctx.count("asan_slices_cut_short_by_tolerated_ubsan_report")
+            ctx.extra["note_ubsan_mju_round"] = ("UBSan float-cast-overflow reports in mju_round (NaN cast to int while the pipeline runs on a "
+                                                 "non-finite state) are counted in ubsan_float_cast_in_mju_round_outside_verdict and are not "
+                                                 "violations of C30: the statement has no undefined-behaviour clause; see "
+                                                 "findings/C30-mju_round-nan-cast.md")
         elif "crash" in r and c.get("flavour") == "asan" and _asan_site(r["crash"], "asan"):
             kind, fn = _asan_site(r["crash"], "asan")
             ctx.count("asan_reports")
